@@ -2236,6 +2236,29 @@ class DiskObjectStore(PackBasedObjectStore):
                 _remove_readonly(path)
                 return pack
 
+        # Materialise every object so payloads that fail to parse
+        # (e.g. tree entries with garbage modes) are rejected rather
+        # than silently landed on disk. MemoryObjectStore already
+        # validates ingested objects this way via PackInflater. This
+        # happens while the pack still has its temporary name: under its
+        # final name other processes would find and use it, and it would
+        # stay behind if this process died before the verdict.
+        candidate = PackData(path, object_format=self.object_format)
+        try:
+            for _obj in PackInflater.for_pack_data(
+                candidate, resolve_ext_ref=self.get_raw
+            ):
+                pass
+        except BaseException:
+            # The failure being handled can still hold views of the mmap
+            # ("cannot close exported pointers exist").
+            with suppress(BufferError, OSError):
+                candidate.close()
+            with suppress(FileNotFoundError):
+                _remove_readonly(path)
+            raise
+        candidate.close()
+
         target_pack_path = pack_base_name + ".pack"
         target_index_path = pack_base_name + ".idx"
         if sys.platform == "win32":
@@ -2307,15 +2330,6 @@ class DiskObjectStore(PackBasedObjectStore):
         )
         try:
             final_pack.check_length_and_checksum()
-            # Materialise every object so payloads that fail to parse
-            # (e.g. tree entries with garbage modes) are rejected rather
-            # than silently landed on disk. MemoryObjectStore already
-            # validates ingested objects this way via PackInflater; without
-            # the same check DiskObjectStore was strictly weaker.
-            for _obj in PackInflater.for_pack_data(
-                final_pack.data, resolve_ext_ref=self.get_raw
-            ):
-                pass
         except BaseException:
             # The rollback must not depend on the pack closing cleanly: the
             # failure being handled can still hold views of its mmap
